@@ -65,6 +65,8 @@ static Opt gen_opt(Rng & r)
   o.max_iter = mi[r.below(8)];
   o.ptol     = r.coin(0.5) ? 1e-6 : r.loguni(1e-12, 1e-2);
   o.ftol     = r.coin(0.5) ? 1e-6 : r.loguni(1e-12, 1e-2);
+  if (r.coin(0.04)) o.ptol = 0;  // a tolerance of zero can only end in MaxIters (or an exact stationary point)
+  if (r.coin(0.04)) o.ftol = 0;
   o.strat    = r.below(4);
   return o;
 }
@@ -170,6 +172,15 @@ static void monitor(Report & rep, const std::string & fam, const std::string & m
     std::string costs = "[";
     for (size_t i = 0; i < o.ev.size() && i < 40; ++i) costs += (i ? "," : "") + jnum(o.ev[i].cost);
     costs += "]";
+    long bad = -1;
+    for (size_t i = 0; i < o.ev.size(); ++i) if (!(o.ev[i].cost == o.ev[i].cost)) { bad = long(i); break; }
+    if (bad >= 0) {
+      costs += ", \"first_nonfinite_index\": " + std::to_string(bad) + ", \"args_before\": [";
+      if (bad > 0) for (size_t i = 0; i < o.ev[bad - 1].args.size(); ++i) costs += (i ? "," : "") + jnum(o.ev[bad - 1].args[i]);
+      costs += "], \"args_at\": [";
+      for (size_t i = 0; i < o.ev[bad].args.size(); ++i) costs += (i ? "," : "") + jnum(o.ev[bad].args[i]);
+      costs += "]";
+    }
     return JObj().str("family", fam).str("mode", mode).str("opt", st).num("ptol", opt.ptol).num("ftol", opt.ftol).str("status", status_name(o.res.status))
       .integer("iter", o.res.iter).integer("callbacks", (long long)o.ev.size()).raw("costs", costs).raw("problem", det0()).done();
   };
